@@ -1343,25 +1343,25 @@ func UnmarshalLsAttribute(a *api.LsAttribute) (*bgp.LsAttribute, error) {
 			})
 		}
 
+		// Every member is optional on its own: an IGP-Flags TLV, an opaque prefix attribute and a
+		// Prefix-SID are independent TLVs (RFC 7752 3.3.3, RFC 9085 2.3.1).
+		lsAttr.Prefix = bgp.LsAttributePrefix{
+			SrPrefixSIDs:     prefixSIDs,
+			FadPrefixMetrics: fapms,
+		}
 		if a.Prefix.IgpFlags != nil {
-			lsAttr.Prefix = bgp.LsAttributePrefix{
-				IGPFlags: &bgp.LsIGPFlags{
-					Down:          a.Prefix.IgpFlags.Down,
-					NoUnicast:     a.Prefix.IgpFlags.NoUnicast,
-					LocalAddress:  a.Prefix.IgpFlags.LocalAddress,
-					PropagateNSSA: a.Prefix.IgpFlags.PropagateNssa,
-				},
-				Opaque:           &a.Prefix.Opaque,
-				SrPrefixSID:      &a.Prefix.SrPrefixSid,
-				SrPrefixSIDs:     prefixSIDs,
-				FadPrefixMetrics: fapms,
+			lsAttr.Prefix.IGPFlags = &bgp.LsIGPFlags{
+				Down:          a.Prefix.IgpFlags.Down,
+				NoUnicast:     a.Prefix.IgpFlags.NoUnicast,
+				LocalAddress:  a.Prefix.IgpFlags.LocalAddress,
+				PropagateNSSA: a.Prefix.IgpFlags.PropagateNssa,
 			}
-		} else if len(prefixSIDs) > 0 || len(fapms) > 0 {
-			// IgpFlags absent but SR / FAPM TLVs present.
-			lsAttr.Prefix = bgp.LsAttributePrefix{
-				SrPrefixSIDs:     prefixSIDs,
-				FadPrefixMetrics: fapms,
-			}
+		}
+		if len(a.Prefix.Opaque) > 0 {
+			lsAttr.Prefix.Opaque = &a.Prefix.Opaque
+		}
+		if a.Prefix.SrPrefixSid != 0 {
+			lsAttr.Prefix.SrPrefixSID = &a.Prefix.SrPrefixSid
 		}
 	}
 
